@@ -2,7 +2,8 @@
 (* Trace validation for C06: every line of the ndjson trace recorded from real xtl::any       *)
 (* objects (harness/any/driver.cpp) must be a step of Any (L1) - with the logged arguments,   *)
 (* the logged element events, the logged result - and what the observers report afterwards    *)
-(* (has_value, empty, type, any_cast pointer) must describe the spec's state.                 *)
+(* (has_value, empty, type, the pointer any_cast over ALL candidate types, both overloads)    *)
+(* must describe the spec's state.                                                            *)
 EXTENDS Any, Json, IOUtils
 
 VARIABLE l     \* next line of the trace to be explained
@@ -10,59 +11,74 @@ VARIABLE l     \* next line of the trace to be explained
 JsonTrace == ndJsonDeserialize(IOEnv.TRACE)
 ExplainAt == atoi(IOEnv.EXPLAIN)
 
-BADID == 0     \* has_value() is true but no any_cast finds the object
+BADID == -3    \* has_value() is true but no any_cast finds the object
 
 (* contents of the any objects as reported by the observers *)
 A2of(st) == [k \in Anys |-> IF st[k].c = 0 THEN RAW
                             ELSE IF ~st[k].has THEN EMPTY
-                            ELSE IF st[k].id >= 1 THEN st[k].id ELSE BADID]
+                            ELSE IF st[k].id >= 1 THEN st[k].id
+                            ELSE IF st[k].ty \in UntrackedTypes /\ st[k].loc >= 1 THEN UNT ELSE BADID]
+U2of(st) == [k \in Anys |-> IF A2of(st)[k] = UNT THEN [t |-> st[k].ty, v |-> st[k].v, loc |-> st[k].loc] ELSE NoU]
+SpcOfLog(s) == [v \in {s[i].v : i \in 1..Len(s)} |-> (CHOOSE i \in 1..Len(s) : s[i].v = v) ]
+Spc2of(s) == LET f == SpcOfLog(s) IN [v \in DOMAIN f |-> s[f[v]].n]
 
 (* the observers agree with each other and with the lifetime bookkeeping *)
-StOK(st, x, L) == \A k \in Anys : LET s == st[k] IN
+StOK(st, x, U, L) == \A k \in Anys : LET s == st[k] IN
     CASE x[k] = RAW   -> s.c = 0
-      [] x[k] = EMPTY -> s.c = 1 /\ ~s.has /\ s.emp /\ s.ty = "void" /\ s.id = 0
+      [] x[k] = EMPTY -> s.c = 1 /\ ~s.has /\ s.emp /\ s.ty = "void" /\ s.id = 0 /\ s.hits = <<>> /\ s.hitm = <<>>
       [] Has(x[k])    -> /\ s.c = 1 /\ s.has /\ ~s.emp /\ s.id = x[k]
                          /\ x[k] \in Live(L) /\ s.ty = L.typ[x[k]] /\ s.v = L.val[x[k]]
+                         /\ s.hits = <<s.ty>> /\ s.hitm = <<s.ty>>      \* exactly the stored type is found, by both overloads
+                         /\ s.al                                           \* at an address that is aligned for the type
+      [] x[k] = UNT   -> /\ s.c = 1 /\ s.has /\ ~s.emp /\ s.id = 0
+                         /\ s.ty = U[k].t /\ s.v = U[k].v /\ s.loc = U[k].loc
+                         /\ s.hits = <<s.ty>> /\ s.hitm = <<s.ty>>
+                         /\ s.al
       [] OTHER        -> FALSE
 
 TInit ==
     /\ l = 1
     /\ Init
 
-(* a new execution: all storage raw again; ids keep growing *)
+(* a new execution: all storage raw again; the line names the build the execution ran on *)
 TReset(e) ==
     /\ a' = [k \in Anys |-> RAW]
-    /\ lt' = NoObjects(lt.hi)
-    /\ pre' = [a |-> a, lt |-> lt]
+    /\ u' = [k \in Anys |-> NoU]
+    /\ lt' = NoObjects(e.a.hi)
+    /\ env' = [noexc |-> e.a.noexc]
+    /\ pre' = [a |-> a, u |-> u, lt |-> lt]
     /\ last' = [op |-> "Reset", k |-> 1, a |-> e.a, ev |-> <<>>, res |-> NoRes]
 
 (* diagnostics for a rejected line: which part of CallOK fails *)
 Explain(e) ==
     LET x == A2of(e.st)
+        U == U2of(e.st)
         F == Fold(lt, e.ev, 1)
         preok == Pre(e.op, e.k, e.a)
+        wf == IF F.ok THEN WFwith(x, F.L) /\ WFU(x, U, Spc2of(e.spc)) ELSE FALSE
     IN PrintT(<<"EXPECTED",
-                [state_before |-> [a |-> a, lt |-> lt],
+                [state_before |-> [a |-> a, u |-> u, lt |-> lt, env |-> env],
                  precondition |-> preok,
                  lifetime_events_ok |-> F.ok,
                  first_bad_event |-> F.at,
                  bad_event |-> IF F.ok THEN <<>> ELSE e.ev[F.at],
                  lifetimes_at_that_point |-> F.L,
-                 no_leak_no_dangling_independent |-> IF F.ok THEN WFwith(x, F.L) ELSE FALSE,
-                 postcondition |-> IF F.ok /\ preok /\ WFwith(x, F.L) THEN Post(e.op, e.k, e.a, lt, x, F.L, e.res, Threw(e.ev)) ELSE FALSE,
-                 observers_consistent |-> IF F.ok THEN StOK(e.st, x, F.L) ELSE FALSE]>>)
+                 no_leak_no_dangling_independent |-> wf,
+                 postcondition |-> IF F.ok /\ preok /\ wf
+                                     THEN Post(e.op, e.k, e.a, World(a, u, lt), World(x, U, F.L), e.res, Threw(e.ev)) ELSE FALSE,
+                 observers_consistent |-> IF F.ok THEN StOK(e.st, x, U, F.L) ELSE FALSE]>>)
 
 TNext ==
     /\ l <= Len(JsonTrace)
     /\ LET e == JsonTrace[l] IN
          IF e.op = "Reset" THEN TReset(e)
          ELSE IF e.op \in {"Crash", "CrashIn"}                 \* the harness died inside the previous call: never accepted
-           THEN l = ExplainAt /\ PrintT(<<"EXPECTED", "the call returns (no crash, sanitizer report or std::terminate)">>) /\ UNCHANGED vars
+           THEN l = ExplainAt /\ PrintT(<<"EXPECTED", "the call returns (no crash, sanitizer report, std::terminate or endless loop)">>) /\ UNCHANGED vars
          ELSE IF e.op = "Desync"                                 \* the script left the C++ preconditions: nothing to judge here
            THEN l = ExplainAt /\ PrintT(<<"EXPECTED", "a script that stays inside the preconditions of the calls", e.why>>) /\ UNCHANGED vars
          ELSE IF l = ExplainAt THEN Explain(e) /\ UNCHANGED vars
-         ELSE /\ Step(e.op, e.k, e.a, e.ev, e.res, A2of(e.st))
-              /\ StOK(e.st, a', lt')
+         ELSE /\ Step(e.op, e.k, e.a, e.ev, e.res, A2of(e.st), U2of(e.st), Spc2of(e.spc))
+              /\ StOK(e.st, a', u', lt')
     /\ l' = l + 1
 
 TSpec == TInit /\ [][TNext]_<<vars, l>>
